@@ -513,7 +513,12 @@ pub fn op_strategy(p: &Profile, kind: Kind, u: u32, dom: u8) -> BoxedStrategy<Op
     Union::new_weighted(v).boxed()
 }
 
-pub const ALL_COMPS: [Comp; 29] = [
+pub const ALL_COMPS: [Comp; 34] = [
+    Comp::Rfold,
+    Comp::FindThenRest,
+    Comp::RfindThenRest,
+    Comp::PositionThenRest,
+    Comp::NextsThenCount,
     Comp::NthThenNthBack,
     Comp::NextsThenNthBack,
     Comp::BacksThenNth,
